@@ -57,6 +57,20 @@ func (req *UploadRequest) Decode(r io.Reader) error {
 		return h, nil
 	}
 
+	// The optional "filter <spec>" line is the last one Encode writes: only
+	// a flush-pkt may follow it.
+	decodeFilter := func() error {
+		req.Filter = Filter(bytes.TrimPrefix(line, filterPrefix))
+		ok, err := nextLine()
+		if err != nil {
+			return err
+		}
+		if ok && len(line) != 0 {
+			return decodeError("unexpected payload while expecting a flush-pkt: %q", line)
+		}
+		return nil
+	}
+
 	// First want line: want <hash>[ capabilities]
 	ok, err := nextLine()
 	if err != nil {
@@ -166,8 +180,11 @@ func (req *UploadRequest) Decode(r io.Reader) error {
 			return nil
 		}
 
-		// After deepen <n>, only flush-pkt is valid
+		// After deepen <n>, only a filter line or a flush-pkt is valid
 		if req.Depth.Deepen > 0 {
+			if bytes.HasPrefix(line, filterPrefix) {
+				return decodeFilter()
+			}
 			if bytes.HasPrefix(line, deepenSince) || bytes.HasPrefix(line, deepenReference) {
 				return ErrDeepenMutuallyExclusive
 			}
@@ -177,6 +194,10 @@ func (req *UploadRequest) Decode(r io.Reader) error {
 		if deepenRevList && bytes.HasPrefix(line, deepen) && !bytes.HasPrefix(line, deepenSince) && !bytes.HasPrefix(line, deepenReference) {
 			return ErrDeepenMutuallyExclusive
 		}
+	}
+
+	if bytes.HasPrefix(line, filterPrefix) {
+		return decodeFilter()
 	}
 
 	// Unexpected payload after shallows or wants
